@@ -418,21 +418,20 @@ Proof. repeat split; cbn; intro H; discriminate. Qed.
 Section Shape.
 Variable alnum : list Z.
 
-(* what one unit of fuel buys: a token and strictly less input, or strictly
-   less input, or the end of the stream *)
-Inductive shape (f : nat) (s : bytes) : list token -> Prop :=
-| Sh_emit tok st' r off' : (length r < length s)%nat -> tok_ok tok -> ~ final tok ->
-    shape f s (tok :: lex_from alnum f st' r off')
-| Sh_skip st' r off' : (length r < length s)%nat -> shape f s (lex_from alnum f st' r off')
-| Sh_final pre tok : Forall tok_ok pre -> Forall (fun t => ~ final t) pre -> tok_ok tok -> final tok -> shape f s (pre ++ [tok]).
+(* what one step does: a token and strictly less input, or strictly less
+   input, or the end of the stream *)
+Inductive shape (s : bytes) : lstep -> Prop :=
+| Sh_emit tok st' r off' : (length r < length s)%nat -> tok_ok tok -> ~ final tok -> shape s (LEmit tok st' r off')
+| Sh_skip st' r off' : (length r < length s)%nat -> shape s (LSkip st' r off')
+| Sh_final pre tok : Forall tok_ok pre -> Forall (fun t => ~ final t) pre -> tok_ok tok -> final tok -> shape s (LStop (pre ++ [tok])).
 
 Ltac other := apply tok_ok_other; discriminate.
 Ltac notfinal := let H := fresh in intros [H|H]; discriminate H.
 Ltac fin1 tok := change [tok] with ([] ++ [tok]); apply Sh_final; [constructor|constructor| |].
 
-Lemma lex_step f st s off : shape f s (lex_from alnum (S f) st s off).
+Lemma lex_step st s off : shape s (lex_step1 alnum st s off).
 Proof.
-  cbn [lex_from].
+  unfold lex_step1.
   destruct (starts_with slashes s) eqn:Esl.
   { destruct (lex_comment s) as [[c r] at_end] eqn:Ec. destruct at_end.
     - change [mk TComment c off; mk TEOF (B"EOF"%string) (off + zlen c)]
@@ -506,8 +505,8 @@ Definition terminated (l : list token) : Prop :=
 Theorem lex_from_invariant : forall f st s off, (length s < f)%nat ->
   terminated (lex_from alnum f st s off) /\ Forall tok_ok (lex_from alnum f st s off).
 Proof.
-  induction f as [|f IH]; intros st s off Hf; [lia|].
-  destruct (lex_step f st s off) as [tok st' r off' Hlt Hok Hnf|st' r off' Hlt|pre tok Hpre Hnf Hok Hfin].
+  induction f as [|f IH]; intros st s off Hf; [lia|]. cbn [lex_from].
+  destruct (lex_step st s off) as [tok st' r off' Hlt Hok Hnf|st' r off' Hlt|pre tok Hpre Hnf Hok Hfin].
   - destruct (IH st' r off' ltac:(lia)) as [[pre [t [E [Ht Hp]]]] Hall]. split.
     + exists (tok :: pre), t. rewrite E. split; [reflexivity|]. split; [exact Ht|constructor; assumption].
     + constructor; assumption.
@@ -517,10 +516,81 @@ Proof.
     + apply Forall_app. split; [exact Hpre|constructor; [exact Hok|constructor]].
 Qed.
 
+(* the fuel is not part of the meaning: any two amounts above the input length give the same stream *)
+Theorem lex_fuel_irrelevant : forall f g st s off, (length s < f)%nat -> (length s < g)%nat ->
+  lex_from alnum f st s off = lex_from alnum g st s off.
+Proof.
+  induction f as [|f IH]; intros g st s off Hf Hg; [lia|]. destruct g as [|g]; [lia|]. cbn [lex_from].
+  destruct (lex_step st s off) as [tok st' r off' Hlt _ _|st' r off' Hlt|pre tok _ _ _ _].
+  - f_equal. apply IH; lia.
+  - apply IH; lia.
+  - reflexivity.
+Qed.
+
 Theorem lex_all_terminated s : terminated (lex_all alnum s).
 Proof. apply lex_from_invariant. lia. Qed.
 
 Theorem lex_all_tokens_ok s : Forall tok_ok (lex_all alnum s).
 Proof. apply lex_from_invariant. lia. Qed.
+
+
+(* ---------- offsets: a stream lexed at another offset is the same stream, moved ---------- *)
+
+Definition shift (d : Z) (t : token) : token :=
+  {| t_typ := t_typ t; t_val := t_val t; t_off := t_off t + d; t_err := t_err t |}.
+
+Definition shift_step (d : Z) (x : lstep) : lstep :=
+  match x with
+  | LEmit tok st r o => LEmit (shift d tok) st r (o + d)
+  | LSkip st r o => LSkip st r (o + d)
+  | LStop l => LStop (map (shift d) l)
+  end.
+
+Ltac shift_leaf := unfold shift_step, shift, mk, mkerr; cbn [map t_typ t_val t_off t_err];
+  repeat match goal with
+         | |- LEmit _ _ _ _ = LEmit _ _ _ _ => f_equal
+         | |- LSkip _ _ _ = LSkip _ _ _ => f_equal
+         | |- LStop _ = LStop _ => f_equal
+         | |- _ :: _ = _ :: _ => f_equal
+         | |- Build_token _ _ _ _ = Build_token _ _ _ _ => f_equal
+         end; try reflexivity; lia.
+
+Lemma lex_step1_shift st s off : lex_step1 alnum st s off = shift_step off (lex_step1 alnum st s 0).
+Proof.
+  unfold lex_step1.
+  destruct (starts_with slashes s).
+  { destruct (lex_comment s) as [[c r] at_end]. destruct at_end; shift_leaf. }
+  destruct st.
+  - destruct (match_sf s) as [[m r]|]; [shift_leaf|].
+    destruct (match_wbit s) as [[m r]|]; [shift_leaf|].
+    destruct (match_dir s) as [[m r]|]; [shift_leaf|].
+    destruct s as [|b r]; [shift_leaf|].
+    destruct (is_ws b); [shift_leaf|]. destruct (byte_eqb b x2e); [shift_leaf|]. destruct (byte_eqb b x3c); [shift_leaf|].
+    destruct (decode_rune (b :: r)) as [r0 w0]. destruct (is_space_rune r0); shift_leaf.
+  - destruct (match_ellipsis s) as [[m r]|]; [shift_leaf|].
+    destruct (match_ident s) as [[m r]|].
+    { destruct (mem_bytes (to_upper m) item_types); [shift_leaf|].
+      destruct (bytes_eqb (to_upper m) [x54] || bytes_eqb (to_upper m) [x46]); [shift_leaf|].
+      destruct (match_indices (length r) r) as [ix r']. shift_leaf. }
+    destruct s as [|b r]; [shift_leaf|].
+    match goal with |- context [if ?c then _ else _] => destruct c end.
+    { destruct (lex_number alnum (b :: r)) as [[txt r'] ok]. destruct ok; shift_leaf. }
+    destruct (byte_eqb b x3c); [shift_leaf|]. destruct (byte_eqb b x3e); [shift_leaf|]. destruct (byte_eqb b x2e); [shift_leaf|].
+    destruct (byte_eqb b x5b); [destruct (lex_size (b :: r)) as [[raw r']|]; shift_leaf|].
+    destruct (byte_eqb b x22); [destruct (lex_quoted (b :: r)) as [[q r']|]; shift_leaf|].
+    destruct (is_ws b); [shift_leaf|]. destruct (decode_rune (b :: r)) as [rn w]. shift_leaf.
+Qed.
+
+Lemma shift_shift a b t : shift a (shift b t) = shift (b + a) t.
+Proof. unfold shift. cbn. f_equal. lia. Qed.
+
+Theorem lex_from_shift : forall f st s off, lex_from alnum f st s off = map (shift off) (lex_from alnum f st s 0).
+Proof.
+  induction f as [|f IH]; intros st s off; [reflexivity|]. cbn [lex_from]. rewrite (lex_step1_shift st s off).
+  destruct (lex_step1 alnum st s 0) as [tok st' r o|st' r o|l]; cbn [shift_step map].
+  - f_equal. rewrite (IH st' r (o + off)), (IH st' r o), map_map. apply map_ext. intro t. symmetry. apply shift_shift.
+  - rewrite (IH st' r (o + off)), (IH st' r o), map_map. apply map_ext. intro t. symmetry. apply shift_shift.
+  - reflexivity.
+Qed.
 
 End Shape.
